@@ -100,6 +100,7 @@ type Machine struct {
 	syncMaps    map[*value]*omap
 	sideState   map[*value]any // engine state attached to interpreted objects (WaitGroup counters, timers…)
 	timers      []*vtimer
+	vclock      value // virtual clock (vrtAdvance)
 	nowTerm     *smt.Term // last symbolic instant handed out by time.Now
 	uuidSeq     int
 	sleeps      []value
@@ -651,6 +652,21 @@ func (m *Machine) yield() {
 		cur.ready = func() bool { return true }
 		m.scheduleAwayFrom(cur)
 		cur.ready = nil
+	}
+}
+
+// yieldOnce hands the baton to the other runnable goroutines once and returns
+// when this goroutine is scheduled again (unlike yield it does not wait for
+// the others to become quiescent, so two goroutines may take turns).
+func (m *Machine) yieldOnce() {
+	cur := m.cur
+	for _, g := range m.gs {
+		if g != cur && !g.done && (g.ready == nil || g.ready()) {
+			cur.ready = func() bool { return true }
+			m.scheduleAwayFrom(cur)
+			cur.ready = nil
+			return
+		}
 	}
 }
 
